@@ -6,7 +6,7 @@
     its verdict IS linearizability w.r.t. [SetSpec] / [MapSpec], and that the way extract_min / extract_max
     are presented to it is exactly the property's three clauses. *)
 From Coq Require Import ZArith List Bool.
-From LV Require Import Base.Lin Base.Conc Base.Events Spec.Specs Proofs.LinProofs Proofs.SkipSeqEncoding
+From LV Require Import Base.Lin Base.Conc Base.Events Spec.Specs Proofs.LinProofs Proofs.SkipListLin Proofs.SkipSeqEncoding
   Model.SkipList Proofs.SkipListProofs.
 Import ListNotations.
 Local Open Scope Z_scope.
@@ -107,18 +107,88 @@ Theorem C15_skip_run_case_covered :
 Proof. exact run_case_level0_sorted. Qed.
 Print Assumptions C15_skip_run_case_covered.
 
-(** STATED, NOT PROVED (…_statement): upper levels are sub-lists of the level below at every instant, and every
-    history of the model is linearizable to SetSpec (LP of a successful insert: the level-0 link CAS; of a successful
-    erase / extract: the level-0 mark CAS).  What is proved of them: the order invariant above (all schedules); the
+(** ** Linearizability of the updates, for EVERY schedule (Proofs/SkipListLin.v).
+
+    Any number (<= 63) of threads, any client programs of insert / erase / contains (tower heights 1..3, inserted keys
+    0..7), any pre-filled state, every sequence of thread choices: the history of the trace from which the completed
+    operations that did not modify the set (contains, insert -> false, erase -> false) are deleted — [upd_hist], the same
+    reading as C13's mlist_updates_linearizable — is linearizable w.r.t. the sequential set.  The proof is an
+    Owicki–Gries invariant over the ghost level-0 chain [aL] (a list, like C13's [L]) and the LP-annotated trace:
+    abstraction = keys of the unmarked nodes of the chain; linearization point of insert -> true = the level-0 link CAS
+    of insert_at_position, of erase -> true = the level-0 mark CAS of try_remove_at; helping (help_remove, the
+    level-0 unlink CAS) is shown not to change the abstract set.  [exhausted]: a thread whose retry loop ran out of
+    the model's loop fuel abandons its operation ("outoffuel" event); nothing is claimed about such traces. *)
+Theorem C15_skip_updates_linearizable :
+  forall (fuel : nat) (nodes : list (nat * nat)) (ths : list (list SkipList.op)) c,
+    nodes_ok nodes -> Forall (Forall SkipListLin.op_ok') ths -> (length ths <= 63)%nat ->
+    Conc.reach (SkipList.init_cfg fuel nodes ths) c -> ~ SkipListLin.exhausted (Conc.trace c) ->
+    linearizable SetSpec (SkipListLin.upd_hist nodes (Conc.trace c)).
+Proof. exact SkipListLin.skip_updates_linearizable. Qed.
+Print Assumptions C15_skip_updates_linearizable.
+
+(** the abstraction itself: at every reachable state there is a valid LP-annotated trace whose erasure is the update
+    history and whose abstract set is exactly the set of keys of the unmarked nodes on the level-0 chain *)
+Theorem C15_skip_abstract_set_is_unmarked_level0 :
+  forall (fuel : nat) (nodes : list (nat * nat)) (ths : list (list SkipList.op)) c,
+    nodes_ok nodes -> Forall (Forall SkipListLin.op_ok') ths -> (length ths <= 63)%nat ->
+    Conc.reach (SkipList.init_cfg fuel nodes ths) c -> ~ SkipListLin.exhausted (Conc.trace c) ->
+    exists L atr S st,
+      SkipListLin.walk (Conc.shared c) head L /\ lp_run lp_init atr = Some (S, st) /\
+      erase atr = SkipListLin.upd_hist nodes (Conc.trace c) /\
+      (forall k, zmem k S = true <-> exists n, In n L /\ snd (nxt (Conc.shared c) n 0) = false /\ key_of n = k).
+Proof. exact SkipListLin.skip_abstraction. Qed.
+Print Assumptions C15_skip_abstract_set_is_unmarked_level0.
+
+(** upper levels vs level 0, for every schedule: a node linked at ANY level that is not logically deleted (its level-0
+    cell is unmarked) is on the level-0 list.  (The level-by-level statement [skip_levels_are_sublists_statement] below
+    is still open.) *)
+Theorem C15_skip_live_linked_nodes_on_level0 :
+  forall (fuel : nat) (nodes : list (nat * nat)) (ths : list (list SkipList.op)) c (l n : nat) (q : ptr),
+    nodes_ok nodes -> Forall (Forall SkipListLin.op_ok') ths -> (length ths <= 63)%nat ->
+    Conc.reach (SkipList.init_cfg fuel nodes ths) c ->
+    In q (chain (Conc.shared c) l head n) -> snd (nxt (Conc.shared c) q 0) = false ->
+    exists m, In q (chain (Conc.shared c) 0 head m).
+Proof. exact SkipListLin.skip_live_linked_nodes_on_level0. Qed.
+Print Assumptions C15_skip_live_linked_nodes_on_level0.
+
+(** the runs executed by the step-correspondence check satisfy the hypotheses (both side conditions are decidable) *)
+Theorem C15_skip_run_case_updates_linearizable :
+  forall (cfg : list Z) (ths : list (list (list Z))) (sched : list nat) (fuel : nat),
+    forallb (fun os => forallb SkipListLin.noext os) (map decode_ops ths) = true -> (length ths <= 63)%nat ->
+    SkipListLin.exhaustedb (fst (SkipList.run_case cfg ths sched fuel)) = false ->
+    linearizable SetSpec (SkipListLin.upd_hist (prefill_nodes cfg) (fst (SkipList.run_case cfg ths sched fuel))).
+Proof. exact SkipListLin.run_case_updates_linearizable. Qed.
+Print Assumptions C15_skip_run_case_updates_linearizable.
+
+(** non-vacuity of the theorem above: a contended run (3 threads inserting / erasing / looking up keys 0..2 over a
+    pre-filled key 0, round-robin) satisfies the hypotheses, has failed CASes, and its update history contains
+    successful inserts and erases of several threads *)
+Example C15_skip_updates_linearizable_nonvacuous :
+  let cfg := [1; 1; 0; 0; 0] in
+  let ths := [[[1;1;2]; [6;0]; [10;1]]; [[6;0]; [1;0;0]; [6;1]]; [[1;1;1]; [10;0]; [6;1]]] in
+  let r := SkipList.run_case cfg ths [] 6000 in
+  snd r = true /\
+  forallb (fun os => forallb SkipListLin.noext os) (map decode_ops ths) = true /\
+  SkipListLin.exhaustedb (fst r) = false /\
+  existsb (fun e => match snd e with EvAcc KCas _ false => true | _ => false end) (fst r) = true /\
+  Nat.leb 12 (length (SkipListLin.upd_hist (prefill_nodes cfg) (fst r))) = true /\
+  lincheck SetSpec (SkipListLin.upd_hist (prefill_nodes cfg) (fst r)) = true.
+Proof. vm_compute. repeat split; auto. Qed.
+
+(** STILL STATED, NOT PROVED (…_statement): (a) upper levels are sub-lists of the level below at every instant under
+    concurrency; (b) linearizability of the FULL client history — i.e. also the return values of contains,
+    insert -> false, erase -> false (these need a helping-style LP placed at another thread's CAS, the "last own
+    observation" argument of C13's MichaelListFullProofs) and of extract_min / extract_max (three clauses).  What is
+    proved of them: the theorems above; the order invariant (all schedules, including extract programs); the
     sequential versions (Properties_C18: C18_skip_levels_are_sublists_seq); the implementation-side oracle decides
-    every sampled history of the real code with the verified lincheck. *)
+    every sampled history of the real code, reads and extracts included, with the verified lincheck. *)
 Definition skip_levels_are_sublists_statement : Prop :=
   forall (fuel : nat) nodes ths c (l n : nat) (q : ptr),
     nodes_ok nodes -> Forall (Forall op_ok) ths -> Conc.reach (SkipList.init_cfg fuel nodes ths) c ->
     In q (chain (Conc.shared c) (S l) head n) -> snd (nxt (Conc.shared c) q (S l)) = false ->
     exists m, In q (chain (Conc.shared c) l head m).
 
-Definition skip_updates_linearizable_statement : Prop :=
+Definition skip_full_history_linearizable_statement : Prop :=
   forall (fuel : nat) nodes ths c,
     nodes_ok nodes -> Forall (Forall op_ok) ths -> Conc.reach (SkipList.init_cfg fuel nodes ths) c ->
     linearizable SetSpec (client_history nodes (Conc.trace c)).
